@@ -137,6 +137,9 @@ CONTRACTS = [
 from contracts import c16_load  # noqa: E402
 
 CONTRACTS += c16_load.CONTRACTS
+from contracts import misc_quick as _mq  # noqa: E402
+
+CONTRACTS += _mq.htdigest_hash + _mq.encode_field_text + [_mq.htdigest_set_password]
 BOUNDED = [Bounded("c16", "harness/c16.py", descr="operation sequences over small alphabets vs an independent reader", timeout=900)]
 
 MUTANTS = [
